@@ -582,8 +582,8 @@ package derive
 //@ ensures [only-derived-file-created-or-deleted] forall q string :: !isDerivedFile(q) ==> ((q in fs) <==> (q in old(fs)))
 // C11: the package is analysed under the flags the program was loaded with, each in its own place
 //@ assert-at-call derive.newPackage: [flags-as-loaded] $arg3 == pg.autoname && $arg4 == pg.dedup
-//@ assert-at-call derive.pkg.Print: derive.pkg.HasContent(pkgGen)
-//@ assert-at-call derive.pkg.Delete: !derive.pkg.HasContent(pkgGen)
+//@ assert-at-call derive.pkg.Print: derive.pkg.HasContent($recv)
+//@ assert-at-call derive.pkg.Delete: !derive.pkg.HasContent($recv)
 //@ loop 1: invariant thisprogram != nil && thisprogram.Fset != nil
 //@ loop 1: invariant pkgInfo != nil && pkgInfo.Pkg != nil
 //@ loop 1: invariant forall id *ast.Ident :: id in pkgInfo.Uses ==> pkgInfo.Uses[id] != nil
@@ -591,7 +591,7 @@ package derive
 //@ loop 1: invariant !generated ==> synced
 //@ loop 1: invariant !renamedUnsaved
 //@ loop 1: invariant [left-calls-are-remembered] callsLeft ==> len(undefined) > 0
-//@ loop 2: invariant len(us) == len(pkgGen.undefined) && forall k int :: 0 <= k && k < $i ==> len(us[k]) > 0
+//@ loop 2: invariant len(us) == len($coll) && forall k int :: 0 <= k && k < $i ==> len(us[k]) > 0
 //@ loop 1: invariant (!pg.autoname && !pg.dedup) ==> forall q string :: !isDerivedFile(q) ==> ((q in fs) <==> (q in old(fs))) && fs[q] == old(fs)[q]
 //@ loop 1: invariant forall q string :: !isDerivedFile(q) ==> ((q in fs) <==> (q in old(fs)))
 
